@@ -674,33 +674,57 @@ Qed.
 (* ==================================================================================================== *)
 
 Definition SInv (st : mst * tmem) (s : astate) : Prop :=
-  MInv (snd st) s /\ match fst st with MRun p => Link p (snd st) | MNoMem => True end.
+  MInv (snd st) s /\ match fst st with MRun p => Link p (snd st) | MNoMem => True | MLook _ => True end.
+
+(* the call log is no part of the invariant *)
+Lemma minv_logs : forall m s l q, MInv m s -> MInv (set_logs m l q) s.
+Proof. intros m s l q (L&T&V&R). split; [eapply led_same_ptrs; eauto|]. split; [exact T|]. split; [exact V | exact R]. Qed.
+Lemma link_logs : forall p m l q, Link p m -> Link p (set_logs m l q).
+Proof. intros p m l q H. eapply link_same; eauto. Qed.
 
 Lemma safe_after_tok : forall p t m s, MInv m s -> Link p m ->
   safe (after_tok p t m) s (fun st' s' => SInv st' s').
 Proof.
   intros p t m s HI HL. unfold after_tok. apply safe_bind.
-  eapply safe_weaken; [apply safe_parser_mem; eauto|].
-  intros [m'|] s' H; apply safe_ret; unfold SInv; simpl.
-  - exact H.
-  - split; [exact H | exact I].
+  eapply safe_weaken; [apply safe_parser_mem; [apply minv_logs; apply minv_logs; exact HI | apply link_logs; apply link_logs; exact HL]|].
+  intros [m'|] s' H.
+  - destruct H as (HI'&HL').
+    assert (HS : forall s2, Link s2 m' -> SInv (MRun s2, set_pend (log_now m' (now_events p t)) (later_events p t)) s').
+    { intros s2 H2. split; simpl; [apply minv_logs; apply minv_logs; exact HI' | apply link_logs; apply link_logs; exact H2]. }
+    destruct (on_tok p t) eqn:Eon; try (apply safe_ret; apply HS; exact HL').
+    destruct (late_error p t); apply safe_ret; [|apply HS; exact HL'].
+    split; simpl; [apply minv_logs; apply minv_logs; exact HI' | exact I].
+  - apply safe_ret. split; simpl; [exact H | exact I].
 Qed.
 
 Lemma safe_mstep : forall st x s, SInv st s -> safe (mstep st x) s (fun st' s' => SInv st' s').
 Proof.
   intros [ms m] x s (HI&HL). simpl in HI, HL. unfold mstep; cbn [fst snd].
-  destruct ms as [p|]; [|apply safe_ret; split; auto].
-  destruct (terminal_p p); [apply safe_ret; split; auto|].
-  apply safe_bind. eapply safe_weaken; [apply safe_scan_tok; exact HI|].
-  intros r s1 (HI1&Hs).
-  assert (HL1 : Link p (scan_mem r)).
-  { destruct Hs as (_&_&_&A&B). eapply link_same; eauto. }
-  destruct r as [m'|m'|m']; simpl in *.
-  - destruct (tok_of (flags_of p) x) as [t|].
+  destruct ms as [p| |c]; [|apply safe_ret; split; auto|].
+  - destruct (terminal_p p); [apply safe_ret; split; auto|].
+    apply safe_bind. eapply safe_weaken; [apply safe_scan_tok; exact HI|].
+    intros r s1 (HI1&Hs).
+    assert (HL1 : Link p (scan_mem r)).
+    { destruct Hs as (_&_&_&A&B). eapply link_same; eauto. }
+    destruct r as [m'|m'|m']; simpl in *.
+    + assert (Hgo : safe (match tok_of (flags_of p) x with
+                          | Some t => after_tok p t m'
+                          | None => ret (MRun p, m')
+                          end) s1 (fun st' s' => SInv st' s')).
+      { destruct (tok_of (flags_of p) x) as [t|]; [apply safe_after_tok; assumption | apply safe_ret; split; assumption]. }
+      destruct x; try exact Hgo.
+      apply safe_ret. split; simpl; [apply minv_logs; exact HI1|]. apply link_logs.
+      eapply link_rv; [|exact HL1]. apply rv_on_tok.
+      * intros h k acc x0 _ Hc. discriminate.
+      * intros q Hq. destruct p; simpl in Hq; discriminate.
+    + apply safe_ret. split; simpl; [apply minv_logs; assumption | exact I].
     + apply safe_after_tok; assumption.
-    + apply safe_ret. split; assumption.
-  - apply safe_ret. split; [assumption | exact I].
-  - apply safe_after_tok; assumption.
+  - apply safe_bind. eapply safe_weaken; [apply safe_scan_tok; exact HI|].
+    intros r s1 (HI1&Hs).
+    destruct r as [m'|m'|m']; simpl in *.
+    + destruct x; try (destruct (tok_of F_NONE _)); apply safe_ret; split; simpl; try exact I; try (apply minv_logs); assumption.
+    + apply safe_ret. split; simpl; [apply minv_logs; assumption | exact I].
+    + apply safe_ret. split; simpl; [apply minv_logs; assumption | exact I].
 Qed.
 
 Lemma safe_mrun : forall r st s, SInv st s -> safe (mrun r st) s (fun st' s' => SInv st' s').
